@@ -60,6 +60,17 @@ Section Store.
 
   Definition set_clock (l : clock) (a : cacct) : cacct := mkCacct (c_addr a) (c_id a) (c_file a) l.
   Definition set_file (f : option keyfile) (a : cacct) : cacct := mkCacct (c_addr a) (c_id a) f (c_lock a).
+  (* ks.unlocked is keyed by ADDRESS: two cache entries with one address (an exported key imported
+     again) share their lock state *)
+  Definition set_clock_addr (addr : bytes) (l : clock) (accts : list cacct) : list cacct :=
+    map (fun a => if bytes_eqb (c_addr a) addr then set_clock l a else a) accts.
+
+  (* a new cache entry for an address that is already unlocked is unlocked too (same map key) *)
+  Definition lock_of_addr (addr : bytes) (accts : list cacct) : clock :=
+    match find (fun a => bytes_eqb (c_addr a) addr) accts with Some a => c_lock a | None => CLocked end.
+  (* accountCache.hasAddress: an entry with that address whose file has not been deleted *)
+  Definition has_address (addr : bytes) (accts : list cacct) : bool :=
+    existsb (fun a => bytes_eqb (c_addr a) addr && match c_file a with Some _ => true | None => false end) accts.
 
   (* result of one operation: new state, outcome, and the key file it wrote or returned (if any) *)
   Definition cstep (s : cstate) (op : cop) : cstate * cres * option keyfile :=
@@ -71,8 +82,10 @@ Section Store.
     | CCreate d id pass salt iv =>
         (* newKeyFromECDSA: Address = PubkeyToAddress(priv.PubKey()); storeNewKey / importKey -> StoreKey *)
         let addr := pub_addr (padded_big_bytes 32 d) in
+        if has_address addr accts then (s, RErr, None)          (* ImportECDSA: "account already exists" *)
+        else
         match store_key d addr id pass salt iv with
-        | Ok f => (mkCs now (accts ++ [mkCacct addr id (Some f) CLocked]), ROk, Some f)
+        | Ok f => (mkCs now (accts ++ [mkCacct addr id (Some f) (lock_of_addr addr accts)]), ROk, Some f)
         | Err => (s, RErr, None)
         | Panic => (s, RPanic, None)
         end
@@ -81,7 +94,7 @@ Section Store.
         match decrypt_key kdf aes_ctr aes_cbc_dec H pub_addr f pass with
         | Ok (k, a) =>
           match store_key (N_of_be k) a id newpass salt iv with
-          | Ok f' => (mkCs now (accts ++ [mkCacct a id (Some f') CLocked]), ROk, Some f')
+          | Ok f' => (mkCs now (accts ++ [mkCacct a id (Some f') (lock_of_addr a accts)]), ROk, Some f')
           | Err => (s, RErr, None)
           | Panic => (s, RPanic, None)
           end
@@ -94,13 +107,17 @@ Section Store.
           | Some a =>
             match c_lock a with
             | CForever _ => (s, ROk, None)           (* unlocked indefinitely: not altered *)
-            | _ => (mkCs now (upd_nth i (set_clock (if d =? 0 then CForever k else CUntil (now + d) k)) accts), ROk, None)
+            | _ => (mkCs now (set_clock_addr (c_addr a) (if d =? 0 then CForever k else CUntil (now + d) k) accts), ROk, None)
             end
           | None => (s, RErr, None)
           end
         | other => fail other
         end
-    | CLock i => (mkCs now (upd_nth i (set_clock CLocked) accts), ROk, None)
+    | CLock i =>
+        match nth_error accts i with
+        | Some a => (mkCs now (set_clock_addr (c_addr a) CLocked accts), ROk, None)
+        | None => (s, ROk, None)
+        end
     | CUpdate i old new salt iv =>
         match get_decrypted_key s i old with
         | Ok (k, a) =>
